@@ -100,6 +100,13 @@ def make_models():
     return Models07()
 
 
+def make_models_for(unit_name):
+    if 'router_from_id' in unit_name:
+        from props import C16
+        return C16.make_models()        # base64 / hex codecs of Router.update (uninterpreted, as in C16)
+    return Models07()
+
+
 def _fns(ctx):
     K._fns(ctx)
     for q in ('TorState._circuit_update', 'TorState._stream_update', 'TorState._circuit_status', 'TorState._stream_status',
@@ -191,6 +198,7 @@ def unit_stream_first_sight(status):
         o = obj.oid
         H = path.heap
         H[('f', o, 'id')] = NONE
+        H[('f', o, 'flags')] = ex.new_dict(path, [(VStr('REASON'), VStr(z3.String('old_reason')))])
         idtxt = z3.String('id_text')
         path.assume(z3.InRe(idtxt, z3.Plus(z3.Range('0', '9'))))
         host, port = z3.String('host'), z3.String('port_text')
@@ -221,7 +229,11 @@ def unit_stream_first_sight(status):
             ctx.oblige('post.source_host_is_the_reported_one', p, sa.t == shost if isinstance(sa, VStr) else B(False), clause=cl)
             ctx.oblige('post.source_port_is_the_reported_one', p, sp.t == z3.StrToInt(sport) if isinstance(sp, VInt) else B(False), clause=cl)
             fl = g('flags')
-            ctx.oblige('post.flags_are_the_event_keywords', p, B(isinstance(fl, VDictLit)))
+            okf = isinstance(fl, VDictLit)
+            if okf:
+                fp = p.heap[('dict', fl.did)]
+                okf = [concrete_of(k)[1] for k, v in fp] == ['SOURCE_ADDR', 'PURPOSE']
+            ctx.oblige('post.flags_are_exactly_the_event_keywords', p, B(okf), clause='each stream with its latest status (keywords of the latest report only)')
         if not n:
             ctx.oblige('some_normal_exit', path, B(False))
     return run
@@ -240,6 +252,8 @@ def unit_circuit_fields(status, nhops):
         path.assume(z3.InRe(idtxt, z3.Plus(z3.Range('0', '9'))))
         path.assume(z3.StrToInt(idtxt) == cid)
         H[('f', o, 'path')] = ex.new_list(path, [VOpaque('router', 50)])
+        # the previous report carried a keyword this one does not
+        H[('f', o, 'flags')] = ex.new_dict(path, [(VStr('HS_STATE'), VStr(z3.String('old_hs_state')))])
         hops = [z3.String('hop%d' % i) for i in range(nhops)]
         for h in hops:
             path.assume(z3.Length(h) > 0)
@@ -260,7 +274,14 @@ def unit_circuit_fields(status, nhops):
             ctx.oblige('post.status_recorded', p, B(concrete_of(g('state')) == (True, status)), clause='each circuit with its latest status')
             pu = g('purpose')
             ctx.oblige('post.purpose_recorded', p, pu.t == purpose if isinstance(pu, VStr) else B(False), clause='purpose')
-            ctx.oblige('post.flags_are_the_event_keywords', p, B(isinstance(g('flags'), VDictLit)), clause='flags')
+            fl = g('flags')
+            okf = isinstance(fl, VDictLit)
+            if okf:
+                fp = p.heap[('dict', fl.did)]
+                okf = len(fp) == 2 and [concrete_of(k)[1] for k, v in fp] == ['PURPOSE', 'BUILD_FLAGS'] and all(isinstance(v, VStr) for k, v in fp)
+            ctx.oblige('post.flags_are_exactly_the_event_keywords', p,
+                       zand(B(okf), fp[0][1].t == purpose, fp[1][1].t == bf) if okf else B(False),
+                       clause='each circuit with its latest flags (a keyword Tor no longer reports is gone)')
             routers = ctx.models.glog(p, 'routers')
             newpath = _items(ex, p, g('path'))
             if status == 'LAUNCHED':
@@ -459,6 +480,75 @@ def unit_snapshot(kind, nlines):
     return run
 
 
+def unit_router_from_id(known):
+    """TorState.router_from_id for a $fingerprint~nickname hop: the consensus relay with that fingerprint, or - for a relay
+    outside the consensus - a fresh Router carrying exactly that fingerprint (never some other relay that shares the nickname)"""
+    def run(ctx):
+        ctx.fn(K.TST, 'TorState.router_from_id')
+        import txtorcon.torstate as ts
+        import txtorcon.router as rt
+        ex = ctx.ex
+        path = ctx.new_path()
+        st = ex.new_inst(path, ts.TorState)
+        H = path.heap
+        fp, nick, sep = z3.String('fingerprint'), z3.String('nickname'), z3.String('separator')
+        for nm, t in (('fingerprint', fp), ('nickname', nick), ('separator', sep)):
+            ctx.input(nm, VStr(t))
+        path.assume(z3.Length(fp) == 40)
+        path.assume(z3.Not(z3.PrefixOf(mk_str('$'), fp)))          # hex digits
+        path.assume(z3.Or(sep == mk_str('~'), sep == mk_str('=')))
+        path.assume(z3.Length(nick) > 0)
+        path.assume(z3.Not(z3.PrefixOf(mk_str('$'), nick)))
+        # A7 codec laws at the terms that occur (the round trip itself is C16/codec's obligation); Tor reports upper-case hex
+        from props.C16 import F_unhex, F_b64e, F_b64d, F_hex, F_upper
+        raw = F_unhex(fp)
+        enc = F_b64e(raw)
+        path.assume(F_upper(F_hex(raw)) == fp)
+        path.assume(F_b64d(enc) == raw)
+        path.assume(z3.SuffixOf(mk_str('='), enc))
+        rid = z3.Concat(mk_str('$'), fp, sep, nick)
+        key41 = z3.Concat(mk_str('$'), fp)
+        by_fp = ex.new_inst(path, rt.Router)
+        namesake = ex.new_inst(path, rt.Router)
+        other_fp = z3.String('other_fingerprint_key')
+        path.assume(z3.Length(other_fp) == 41)
+        path.assume(z3.PrefixOf(mk_str('$'), other_fp))
+        path.assume(other_fp != key41)
+        entries = [(VStr(other_fp), namesake), (VStr(nick), namesake)]     # a consensus relay that happens to use the same nickname
+        if known:
+            entries = [(VStr(key41), by_fp)] + entries
+        routers = ex.new_dict(path, entries)
+        H[('f', st.oid, 'routers')] = routers
+        H[('f', st.oid, 'protocol')] = VOpaque('proto', 1)
+        ctx.cover('pre_satisfiable', path)
+        n_ok = 0
+        for p, r in K._call(ctx, path, st, 'router_from_id', [VStr(rid)]):
+            if isinstance(r, Raise):
+                cname = r.exc.cls.__name__ if isinstance(r.exc, VInst) else '?'
+                ctx.oblige('no_exception[%s]' % cname, p, B(False))
+                continue
+            n_ok += 1
+            pairs = p.heap[('dict', routers.did)]
+            if known:
+                ctx.oblige('post.consensus_relay_found_by_fingerprint', p, B(r is by_fp and len(pairs) == 3),
+                           clause='each circuit with its latest hop path')
+            else:
+                fresh = isinstance(r, VInst) and r.cls is rt.Router and r is not namesake and r is not by_fp
+                ctx.oblige('post.relay_outside_the_consensus_gets_its_own_router', p, B(fresh),
+                           clause='hop path (relays not in the consensus included): never another relay that shares the nickname')
+                if fresh:
+                    nm = p.heap.get(('f', r.oid, 'name'))
+                    ctx.oblige('post.new_router_carries_the_reported_nickname', p, nm.t == nick if isinstance(nm, VStr) else B(False))
+                    ih = p.heap.get(('f', r.oid, 'id_hex'))
+                    ctx.oblige('post.new_router_carries_the_reported_fingerprint', p, ih.t == key41 if isinstance(ih, VStr) else B(False))
+                    mine = [k for k, v in pairs if v is r]
+                    ctx.oblige('post.new_router_registered_once_existing_entries_untouched', p,
+                               B(len(mine) == 1 and len(pairs) == 3 and pairs[0][1] is namesake and pairs[1][1] is namesake))
+        if not n_ok:
+            ctx.oblige('some_normal_exit', path, B(False))
+    return run
+
+
 ATTACH_STATES = ('NEW', 'SUCCEEDED', 'REMAP', 'SENTCONNECT', 'DETACHED', 'CLOSED', 'FAILED')
 
 
@@ -481,6 +571,8 @@ def units():
     us.append(('C07/TorState.stream_failed', unit_stream_gone('stream_failed')))
     for w in ('circuit_new', 'circuit_launched', 'circuit_destroy'):
         us.append(('C07/TorState.%s' % w, unit_circuit_table(w)))
+    us.append(('C07/TorState.router_from_id@in_consensus', unit_router_from_id(True)))
+    us.append(('C07/TorState.router_from_id@not_in_consensus', unit_router_from_id(False)))
     for kind in ('circuit', 'stream'):
         for known in (True, False):
             us.append(('C07/TorState._%s_update@%s' % (kind, 'known' if known else 'first_sight'), unit_dispatch(kind, known)))
